@@ -106,3 +106,68 @@ def run(ck, w):
                 ck.ok(o, "LatestClosed -> last_complete_band", sites=[e.site() for e in lc])
             else:
                 ck.fail(o, rb.name, "LatestClosed does not use last_complete_band", "LatestClosed arm reaches last_band_id or misses last_complete_band")
+    _band_order_and_cache(ck, w)
+
+
+def _band_order_and_cache(ck, w):
+    lib = w.lib
+    o = ck.ob("C02.2e", "band ids are ordered numerically: BandId is a single u32 with a derived Ord, parsed before the band list is sorted")
+    impls = {im["trait"]: im["mac"] for im in lib.impls if im["self_ty"] == "bandid::BandId"}
+    adt = lib.adts.get("bandid::BandId")
+    lbi = w.body("archive::Archive::list_band_ids")
+    problems = []
+    if adt is None or [f["ty"] for f in adt["variants"][0]["fields"]] != ["u32"]:
+        problems.append("BandId is no longer a single u32")
+    for tr in ("std::cmp::Ord", "std::cmp::PartialOrd"):
+        if not impls.get(tr) or "derive" not in impls[tr]:
+            problems.append("%s for BandId is not derived (needs review)" % tr)
+    srt = [e for e in lbi.events if e.bb in lbi.live and re.search(r"Itertools::sorted$|::sort(_unstable)?$", e.name)]
+    if srt:
+        src = flow.origins_x(lib, lbi, srt[0].args[0])
+        if not any(c.endswith("Iterator::filter_map") for c in flow.origin_calls(src) | {x[1] for x in src if x[0] == "via"}):
+            problems.append("the band list is sorted before the names are parsed into BandId")
+        parsed = False
+        for fb in lib.family("archive::Archive::list_band_ids"):
+            for e in fb.events:
+                if e.bb in fb.live and e.name.endswith("<impl str>::parse") and "bandid::BandId" in (e.term.get("cargs") or ""):
+                    parsed = True
+        if not parsed:
+            problems.append("directory names are not parsed as BandId")
+    else:
+        problems.append("band list not sorted")
+    if problems:
+        for m in problems:
+            ck.fail(o, "bandid::BandId", m, m)
+    else:
+        ck.ok(o)
+    gb = w.body("blockdir::BlockDir::get_block_content")
+    o = ck.ob("C02.3", "the block content cache is filled only with (hash, bytes) pairs whose bytes hash to that hash")
+    problems = []
+    puts = [e for e in gb.events if e.bb in gb.live and re.search(r"LruCache::<K, V, S>::(put|push)$", e.name)]
+    tests = rules.eq_tests(gb, r"blockhash::BlockHash")
+    ed = set()
+    for e, pol in tests:
+        ed |= rules.bool_switch_edges(gb, e, pol)
+    for e in puts:
+        if not ed or not gb.must_pass_edges(ed, e.bb):
+            problems.append("get_block_content caches content before its hash was verified")
+        k = flow.origins_x(lib, gb, e.args[1])
+        v = flow.origins_x(lib, gb, e.args[2], through_calls=[r"Try>?::branch$"])
+        if not any(x[0] in ("param", "upvar") and x[1] == "hash" for x in k) or not any(c.endswith("Decompressor::decompress") for c in flow.origin_calls(v)):
+            problems.append("get_block_content caches under a key/value that is not (requested hash, decompressed bytes)")
+    sd = w.body("blockdir::BlockDir::store_or_deduplicate")
+    for e in [e for e in sd.events if e.bb in sd.live and re.search(r"LruCache::<K, V, S>::(put|push)$", e.name)]:
+        k = flow.origins_x(lib, sd, e.args[1])
+        v = flow.origins_x(lib, sd, e.args[2])
+        if "blockhash::BlockHash::hash_bytes" not in flow.origin_calls(k) or not any(x[0] in ("param", "upvar") and x[1] == "block_data" for x in v):
+            problems.append("store_or_deduplicate caches under a key that is not the hash of the cached data")
+    hits = [e for e in gb.events if e.bb in gb.live and re.search(r"LruCache::<K, V, S>::(get|peek)$", e.name)]
+    for e in hits:
+        k = flow.origins_x(lib, gb, e.args[1])
+        if not any(x[0] in ("param", "upvar") and x[1] == "hash" for x in k):
+            problems.append("cache looked up under something other than the requested hash")
+    if problems:
+        for m in sorted(set(problems)):
+            ck.fail(o, gb.name, m, m)
+    else:
+        ck.ok(o, "%d put site(s)" % (len(puts) + 1), instances=len(puts) + 1)
